@@ -151,6 +151,9 @@ def dep_model(rng, isa, mem=True, bumps=True):
     hreg = "reg:" + (rng.choice(["rax", "eax", "ax", "al"]) if isa == "x86" else rng.choice(["x0", "w0"]))
     add("hr0a", [{"kind": "reg", "role": "s", "cls": "g"}], hidden=[(hreg, rng.choice(["d", "sd"]))])
     add("hr1a", [{"kind": "reg", "role": "d", "cls": "g"}], hidden=[(hreg, "s")])
+    # no explicit operand at all, implicit ones only (x86 cltq / cqto / vzeroupper style)
+    add("hn0a", [], hidden=[(hreg, "sd")])
+    add("hn1a", [], hidden=[(hreg, "d"), (rng.choice(FLAGS[isa]), "s")])
     # flag consumer / producer pair
     add("fw0a", [{"kind": "reg", "role": "s", "cls": "g"}, {"kind": "reg", "role": "s", "cls": "g"}], hidden=[(f, "d") for f in FLAGS[isa]])
     add("fr0a", [{"kind": "reg", "role": "d", "cls": "g"}] if isa == "aarch64" else [{"kind": "reg", "role": "d", "cls": "g"}],
@@ -625,6 +628,8 @@ def curated_vocab(isa):
         f("add", [g("d", **w), g("s", **w), g("s", **w)])
         f("add", [g("d", **w), g("s", **w), i], bump="add")
         f("sub", [g("d", **w), g("s", **w), i], bump="sub")
+        f("adds", [g("d", **w), g("s", **w), i], bump="add")  # flag-setting forms have their own entries in the ISA description
+        f("subs", [g("d", **w), g("s", **w), i], bump="sub")
         f("mul", [g("d", **w), g("s", **w), g("s", **w)])
         f("madd", [g("d", **w), g("s", **w), g("s", **w), g("s", **w)])
         f("mov", [g("d", **w), g("s", **w)])
